@@ -2,7 +2,7 @@
 //   (no arguments)        read case lines on stdin, print one canonical result line per case (common main loop);
 //                         hostile cases are run in a CHILD process (this binary with --child) under a timeout, a 2 MiB
 //                         thread stack and RLIMIT_AS, so an abort / stack overflow / endless loop cannot take the check down
-//   --child <case line>   run exactly one case in this process and print its result line
+//   --child               run exactly one case (read from stdin) in this process and print its result line
 #[path = "../../common/main_loop.rs"]
 mod main_loop;
 #[path = "../../common/util.rs"]
@@ -53,8 +53,11 @@ static GLOBAL: Counting = Counting;
 
 fn main() {
     let args: Vec<String> = std::env::args().collect();
-    if args.len() >= 3 && args[1] == "--child" {
-        dom::child_main(&args[2]);
+    if args.len() >= 2 && args[1] == "--child" {
+        // the case line arrives on stdin (it can be far longer than an argument may be)
+        let mut line = String::new();
+        std::io::stdin().read_line(&mut line).expect("case line");
+        dom::child_main(line.trim());
         return;
     }
     main_loop::main_loop(dom::run_case);
